@@ -63,6 +63,10 @@ func c07(p *core.Prog, r *core.Report) {
 	r.Rule("C07-R5", "E1+E6 paths", 3, "outbound admission / Connect fail locally in closing states")
 	r.Rule("C07-R6", "E6 guards", 3, "tnet listener Close waits for refs==0; Accept brackets inc/dec")
 
+	// fields the drain predicates are recognised by (matched by name below)
+	for _, a := range [][]string{{"Connection", "stoppedExchanges"}, {"Connection", "inbound"}, {"Connection", "outbound"}, {"Channel", "mutable", "conns"}} {
+		p.Field("", a[0], a[1:]...)
+	}
 	locks := p.ComputeLocks()
 	for _, sp := range stateSpecs {
 		c07StateMachine(p, r, locks, sp)
